@@ -830,7 +830,7 @@ func TestC16(t *testing.T) {
 	hx.Check[c16Case]{
 		Property: "C16", Part: "mixes",
 		Rule:  "2-12 (thorough 32) goroutines, each with a private directory tree (with or without file/directory symlinks incl. a file symlink reachable on two ways), private metadata, keys and verification world, and 1-4 operations from RecordArtifacts / InTotoRun / InTotoRecordStart+Stop / InTotoMatchProducts / SubstituteParameters / Sign / VerifySignature / Dump+LoadMetadata / LoadKey / InTotoVerifyWithDirectory, often all on the same API family; sequential execution gives the expected results, the concurrent execution (start barrier, optional yields, GOMAXPROCS 1/2/4/16, several rounds) must give equal results and no race-detector report; non-trivial = two goroutines overlapping in time inside the same API family (measured); distinct by case JSON",
-		Cases: hx.Pick(40, 1500),
+		Cases: hx.Pick(40, 600),
 		Gen:   c16Gen, Run: c16Run,
 	}.Execute(t)
 	if t.Failed() {
